@@ -16,7 +16,7 @@ def siteStr : Site → String
   | .assertKind => "assertKind" | .typedNil => "typedNil" | .drill => "drill"
 
 def resStr : Res → String
-  | .ok _ => "ok" | .errMust _ => "errMust" | .err => "err" | .panic s => "panic:" ++ siteStr s | .outOfFuel => "fuel"
+  | .ok _ => "ok" | .errMust _ _ => "errMust" | .err => "err" | .panic s => "panic:" ++ siteStr s | .outOfFuel => "fuel"
 
 def tgtTag : Tgt → String
   | .err => "tgt.err" | .wrapper _ => "tgt.wrapper" | .raw _ => "tgt.raw" | .single _ => "tgt.single"
